@@ -5,6 +5,7 @@ import (
 	"errors"
 	"fmt"
 	"slices"
+	"strings"
 	"time"
 
 	"github.com/zitadel/oidc/v3/pkg/oidc"
@@ -19,6 +20,61 @@ type Caps struct {
 	TokenExchange     bool
 	Device            bool
 	FromRequest       bool // CanSetUserinfoFromRequest + CanGetPrivateClaimsFromRequest
+	// EndFromRequest: CanTerminateSessionFromRequest - the storage is handed the whole validated end-session request and
+	// returns the URI to redirect to (SimStore returns the one the library validated)
+	EndFromRequest bool
+	// ExchangeVerifier: TokenExchangeTokensVerifierStorage - tokens the provider itself does not recognise are shown to
+	// the storage, which knows the tokens of one third-party issuer (only together with TokenExchange)
+	ExchangeVerifier bool
+}
+
+// ---- CanTerminateSessionFromRequest ----
+
+type capEnd struct{ s *Store }
+
+func (c capEnd) TerminateSessionFromRequest(ctx context.Context, r *op.EndSessionRequest) (string, error) {
+	s := c.s
+	// journalled under the name of the plain call: the effect and its arguments are the same
+	if f, _ := s.enter(ctx, "TerminateSession", r.UserID, r.ClientID); f != "" {
+		return "", s.faultErr(ctx, f)
+	}
+	s.mu.Lock()
+	defer s.mu.Unlock()
+	s.EndFromRequestCalls++
+	s.terminateLocked(r.UserID, r.ClientID)
+	return r.RedirectURI, nil
+}
+
+// ---- TokenExchangeTokensVerifierStorage ----
+
+// ThirdPartyToken is a token of the one third-party issuer the storage knows: "3p.<subject>.<live|dead>".
+func ThirdPartyToken(subject string, live bool) string {
+	return "3p." + subject + "." + map[bool]string{true: "live", false: "dead"}[live]
+}
+
+type capTEV struct{ s *Store }
+
+func (c capTEV) verify(ctx context.Context, method, token string, tt oidc.TokenType) (string, string, map[string]any, error) {
+	s := c.s
+	if f, _ := s.enter(ctx, method, tt); f != "" {
+		return "", "", nil, s.faultErr(ctx, f)
+	}
+	parts := strings.Split(token, ".")
+	s.mu.Lock()
+	defer s.mu.Unlock()
+	if tt != oidc.JWTTokenType || len(parts) != 3 || parts[0] != "3p" || parts[2] != "live" || s.Users[parts[1]] == nil {
+		return "", "", nil, errors.New("simstore: not a live token of the third-party issuer")
+	}
+	s.ThirdPartyAccepted++
+	return token, parts[1], map[string]any{"iss": "https://third-party.sim", "sub": parts[1]}, nil
+}
+
+func (c capTEV) VerifyExchangeSubjectToken(ctx context.Context, token string, tt oidc.TokenType) (string, string, map[string]any, error) {
+	return c.verify(ctx, "VerifyExchangeSubjectToken", token, tt)
+}
+
+func (c capTEV) VerifyExchangeActorToken(ctx context.Context, token string, tt oidc.TokenType) (string, string, map[string]any, error) {
+	return c.verify(ctx, "VerifyExchangeActorToken", token, tt)
 }
 
 type capCC struct{ s *Store }
